@@ -449,7 +449,7 @@ fn qlaws_ev<T: StratNum>(case: &Value, out: &mut Vec<Value>) {
     let skip_res = skip_res.unwrap_or_else(|| seq_res.clone());
     out.push(json!({"ev": "qlaws", "ty": T::NAME, "n": n, "seq": seq_res, "skip": skip_res, "hasskip": hasskip, "lane": ranks_of(&rm, &lane).iter().map(|r| 2 * r).collect::<Vec<_>>(),
         "qs": qi, "qord": qv.windows(2).all(|w| w[0] <= w[1]), "res": base_res, "perm": perm_res, "rel": rel_res,
-        "isfloat": T::NAME == "n64", "wide": wide, "big": bexp > 51}));
+        "isfloat": T::NAME == "n64", "wide": wide, "big": bexp > 51, "nomid": case.get("nomid").and_then(|x| x.as_bool()).unwrap_or(false)}));
 }
 
 /// C19 on lanes of n-D arrays: q = 0 gives each lane's minimum and q = 1 its maximum for every strategy, at the position of
@@ -672,6 +672,23 @@ pub fn gen(seed: u64, count: usize, tier: &str, params: &Params) -> Vec<Value> {
                 let lay = random_lay(&mut rng, &shape, fancy);
                 let data: Vec<i64> = (0..n).map(|_| rng.range(0, 60)).collect();
                 cases.push(json!({"ev": "ndlaws", "ty": *rng.pick(&["i8", "u8", "i64", "n64"]), "lay": lay.to_json(), "axis": axis, "data": data}));
+            }
+            "qlaws" if rng.chance(1, 12) => {
+                // a signed 8-bit lane with neighbours more than i8::MAX apart: Linear with fractions <= 0.3 is representable
+                // (fraction * gap <= 127), Midpoint is the known finding F6 and is left out ("nomid")
+                let n = rng.range(2, 5) as usize;
+                let mut lane: Vec<i64> = (0..n).map(|_| if rng.chance(1, 2) { rng.range(-128, -100) } else { rng.range(60, 127) }).collect();
+                lane[0] = rng.range(-128, -100); lane[1] = rng.range(60, 127);
+                let m = (n - 1) as i64;
+                let mut qs: Vec<(i64, i64, i64)> = vec![(0, 1, 0), (1, 1, 0)];
+                for k in 0..m { for a in 0..=3 { qs.push((10 * k + a, 10 * m, 0)); } }
+                let mut specs: Vec<(f64, Value)> = qs.iter().map(|&(a, b, u)| { let s = json!({"a": a, "b": b, "u": u}); (make_q(&s), s) }).collect();
+                specs.sort_by(|x, y| x.0.partial_cmp(&y.0).unwrap());
+                let mut perm: Vec<usize> = (0..n).collect();
+                for k in (1..n).rev() { let j = rng.below(k as u64 + 1) as usize; perm.swap(k, j); }
+                let mut distinct = lane.clone(); distinct.sort(); distinct.dedup();
+                cases.push(json!({"ev": "qlaws", "ty": "i8", "lane": lane, "bexp": -1, "qs": specs.into_iter().map(|x| x.1).collect::<Vec<_>>(),
+                                  "perm": perm, "relabel": distinct, "stride": *rng.pick(&[1, 2, -1]), "fb": fb, "nomid": true}));
             }
             _ if params.get("deep").map(|s| s == "1").unwrap_or(false) => {
                 // a run of 70..260 equal values with a few others around it: selection recurses as deep as the run is long
